@@ -53,14 +53,20 @@ def strategy(tier):
 
 def run_case(case):
     work = env.fresh_dir('c04')
+    loops = []
     try:
-        return _run(case, work)
+        return _run(case, work, loops)
     finally:
+        for lp in loops:
+            try:
+                lp.close()
+            except Exception:
+                pass
         env.shutdown_executors()
         env.rmtree(work)
 
 
-def _run(case, work):
+def _run(case, work, loops):
     s = case['settings']
     enc = s.get('encryption') is not None
     classes = ['encrypted' if enc else 'unencrypted', 'cache:' + case['cache']]
@@ -126,6 +132,7 @@ def _run(case, work):
     if case.get('session'):
         import asyncio as _asyncio
         session_loop = _asyncio.new_event_loop()
+        loops.append(session_loop)
         session_repo = world.repository(backend, n, cache)
 
         async def warm():
